@@ -90,6 +90,9 @@ func genAppendOp(r *Rng, n int, model []bool) HistOp {
 			op.Weights[0], sum = 1, sum+1
 		}
 		op.Card = r.Range(1, sum)
+		if r.Chance(1, 4) { // every literal is needed: all of them become facts at once, and the later ones may already be refuted by what the earlier ones propagate
+			op.Card = sum
+		}
 	}
 	return op
 }
@@ -358,5 +361,77 @@ func appendMirror(o *Oracle, oc *Outcome, s *solver.Solver, cl *solver.Clause, o
 			}
 		}
 	}
+	// and the trail never holds a literal and its negation unless the problem is refuted
+	if st1 != solver.Unsat {
+		tr, _, _ := s.VerifTrailState()
+		onTrail := map[int]bool{}
+		for _, l := range tr {
+			if onTrail[-l] {
+				oc.Fail("spec", "facts-hold", "solver.AppendClause", "op %d: the trail holds both %d and %d after the call and the solver is not refuted (trail %v)", opIdx, -l, l, tr)
+				break
+			}
+			onTrail[l] = true
+		}
+	}
 	oc.Tag("append-mirror:" + strings.SplitN(want, " ", 2)[0])
+}
+
+// mirrorAppends ties every AppendClause call made on s — by the caller or by the library itself
+// (bound constraints of Optimal / Minimize, blocking clauses of Enumerate / CountModels) — to the
+// Lean mirror of its prologue, exactly as appendMirror does for one call; the returned function
+// removes the hooks.
+func mirrorAppends(o *Oracle, oc *Outcome, s *solver.Solver, entry string) func() {
+	var pre appendObs
+	var st0 solver.Status
+	var nb0 int
+	var facts0 []int
+	have := false
+	n := 0
+	s.VerifSetAppendHook(func(top []int, c solver.PBConstr, pb bool) {
+		pre, have = appendObs{append([]int{}, top...), c, pb}, true
+		st0, nb0, _, _, facts0 = s.VerifAppendState()
+	})
+	s.VerifSetAppendedHook(func() {
+		if !have {
+			return
+		}
+		have = false
+		n++
+		if st0 == solver.Unsat || n > 12 || len(oc.Failures) > 0 {
+			return
+		}
+		st1, nb1, last, lastPB, facts1 := s.VerifAppendState()
+		ws := ""
+		if pre.pb {
+			ws = encInts(pre.c.Weights)
+		}
+		want := o.Ask(fmt.Sprintf("appendsimp %s | %s | %s | %d", encInts(pre.top), encInts(pre.c.Lits), ws, pre.c.AtLeast))
+		oc.Corr++
+		var got string
+		switch {
+		case nb1 == nb0+1:
+			w := "e"
+			if lastPB {
+				w = encInts(last.Weights)
+			}
+			got = fmt.Sprintf("attach %d ; %s ; %s", last.AtLeast, encInts(last.Lits), w)
+		case len(facts1) > len(facts0):
+			got = "units " + encInts(facts1[len(facts0):])
+		case st1 == solver.Unsat:
+			got = "unsat"
+		default:
+			got = "trivial"
+		}
+		ok := got == want
+		if !ok && strings.HasPrefix(got, "units ") && strings.HasPrefix(want, got) && st1 == solver.Unsat {
+			ok = true
+		}
+		if !ok {
+			oc.Fail("corr", "append-mirror", entry, "AppendClause %d: top level %v, constraint %v*%v >= %d (explicit weights: %v): Go did %q, the mirror GS.Append.appendSimplify says %q", n, pre.top, pre.c.Weights, pre.c.Lits, pre.c.AtLeast, pre.pb, got, want)
+		}
+	})
+	return func() {
+		s.VerifSetAppendHook(nil)
+		s.VerifSetAppendedHook(nil)
+	}
 }
